@@ -347,7 +347,7 @@ def cases(tier, rng):
     out = []
     liks = ["gauss", "fixed", "fixedl"]
     modes = ["plain", "shared", "per", "unb"]
-    reps = 1 if quick else 12
+    reps = 1 if quick else 8
     for _ in range(reps):
         # (1) full cover of b x mode x lik x fpv at depth 1
         for b, mode, lik, fpv in itertools.product([[], [2]], modes, liks, [0, 1]):
@@ -395,6 +395,9 @@ def cases(tier, rng):
                          steps=[_step(rng, "plain")]))
         out.append(_case(rng, strategy="wiski", kernel="rbf", d=1, fpv=1, no_grad=1,
                          steps=[_step(rng, "shared", F=2)]))
+        # (10) through IndependentModelList.get_fantasy_model
+        for lik in liks:
+            out.append(_case(rng, lik=lik, fpv=1, via_list=1, steps=[_step(rng, "plain")]))
         # (9) deepcopy refuses (as it does for objects holding non-leaf tensors): the call must fail *and* leave the
         #     source as it was
         out.append(_case(rng, lik="gauss", fpv=1, poison="model", steps=[_step(rng, "plain")]))
@@ -486,6 +489,11 @@ def _run_case(cfg):
         p0 = source(xs)
         p0m, p0c = p0.mean.detach().clone(), p0.covariance_matrix.detach().clone()
         rec["strategy_class"] = type(source.prediction_strategy).__name__
+        if cfg.get("via_list"):
+            acfg = dict(cfg, lik="gauss", b=[], strategy="default", n=3)
+            aux, _, _, _ = build_source(acfg, gen)
+            aux(_rand(gen, 2, d))
+            aux_xf, aux_yf = _rand(gen, 2, d), _randn(gen, 2)
         cur = source
         B = b
         X_full, Y_full, N_full = x, y, fixed_noise
@@ -521,7 +529,15 @@ def _run_case(cfg):
                 cur.likelihood._c04_poison = _Poison()
             snap = snapshot(cur)
             try:
-                nxt = cur.get_fantasy_model(xf, yf, **kw)
+                if cfg.get("via_list") and si == 0:
+                    # through IndependentModelList.get_fantasy_model (models/model_list.py), second member = a small
+                    # Gaussian model whose fantasy is not examined
+                    ml = gpytorch.models.IndependentModelList(cur, aux)
+                    lkw = {"noise": [kw["noise"], None]} if "noise" in kw else {}
+                    out = ml.get_fantasy_model([xf, aux_xf], [yf, aux_yf], **lkw)
+                    nxt = out.models[0]
+                else:
+                    nxt = cur.get_fantasy_model(xf, yf, **kw)
             except Exception as e:  # noqa: BLE001  (the real code rejects / crashes: classified by the caller)
                 rec["rejected"] = {"step": si, "where": "get_fantasy_model", "type": type(e).__name__,
                                    "msg": str(e).split("\n")[0][:160]}
